@@ -16,7 +16,7 @@ from .c08 import prog_sig, shrink_candidates as c08_shrink
 
 PROP = 'C07'
 LEVEL = 'exploration'
-N = {'quick': 60000, 'thorough': 2000000}
+N = {'quick': 40000, 'thorough': 2000000}
 RULE = ('seeded TdmsWriter programs (as C08) with session splits; after every session end the file is read with '
         'TdmsFile.read (converted and raw timestamps) and compared with the model of accepted calls: per channel '
         'the concatenation with the same dtype and bytes, per object the last value per property with the TDMS '
